@@ -15,8 +15,6 @@ import Ovsdb.Model.Basic
 namespace Ovsdb
 open AMap
 
-abbrev UUID := String
-abbrev Row := AMap String Value
 abbrev IdxVal := List Atom
 
 structure ColumnKey where
